@@ -28,7 +28,7 @@ CLAIMED = {
    "Appendix A.2 is written from memory of the Project Haystack JSON documentation. serde_json is trusted as the JSON reader for the reference writer's self-check."),
  "C07": ("model_checking", "DESIGN.md §5 C07, Appendix A.3",
    "exhaustive enumeration of all filter programs up to 3 leaves (built from the public node structs) x a record universe, real evaluator vs reference evaluator in lock-step",
-   "Every single leaf (has/missing over 8 paths; 6 operators x 13 literals x 4 paths) on 144 records covering every kind incl. Null, lists and nested dicts; every and/or/parens shape with <= 3 leaves over a kind-distinct core; `*==` through EvalContext with a caller-supplied resolver over 48 ref worlds (chains, 1- and 2-cycles, dangling refs); Grid::filter / filter_all over every grid of <= 3 rows x 6 filters. Reference evaluator written from the statement; ordering of Numbers with different units is unconstrained and skipped.",
+   "Every single leaf (has/missing over 8 paths; 6 operators x 18 literals x 4 paths) on 240 records covering every kind incl. Null, lists and nested dicts; every and/or/parens shape with <= 3 leaves over a kind-distinct core; `*==` through EvalContext with a caller-supplied resolver over 48 ref worlds (chains, 1- and 2-cycles, dangling refs); Grid::filter / filter_all over every grid of <= 3 rows x 6 filters. Reference evaluator written from the statement; ordering of Numbers with different units is unconstrained and skipped.",
    "Value equality of the filter language = same kind and value, Ref by id, DateTime by instant. `^symbol` semantics are decided in C13."),
  "C08": ("model_checking", "DESIGN.md §5 C08, Appendix A.3",
    "exhaustive enumeration of filter trees up to 2/3 leaves; print->parse identity on the real printer/parser + deviation-bounded exploration (E2) of a reference printer's spacing choices",
